@@ -602,9 +602,10 @@ func (c *c02) par1DamageAndJudge(r *core.R, p c02Params, rng *rand.Rand, e *p1en
 		case (p.Kind == "general" || p.Kind == "beyond-capacity") && rng.Intn(3) == 0:
 			os.Remove(vp)
 		case p.Kind == "garbled-volume" && rng.Intn(2) == 0:
-			b, _ := os.ReadFile(vp)
-			b[rng.Intn(len(b))] ^= 0x11
-			os.WriteFile(vp, b, 0644)
+			if b, _ := os.ReadFile(vp); len(b) > 0 {
+				b[rng.Intn(len(b))] ^= 0x11
+				os.WriteFile(vp, b, 0644)
+			}
 		case p.Kind == "altered-recovery" || p.Kind == "big-altered":
 			b, _ := os.ReadFile(vp)
 			if len(b) > 0x61 {
